@@ -16,6 +16,7 @@ import (
 	"time"
 
 	"github.com/relex/gotils/logger"
+	"github.com/relex/slog-agent/util/vhook"
 
 	"verifharness/internal/e2e"
 	"verifharness/internal/vkit"
@@ -50,6 +51,15 @@ func childMain(c *vkit.Ctx) {
 		runtime.GOMAXPROCS(sc.Procs)
 	}
 	c.LogCase(sc.ID + ":" + sc.Family)
+	if sc.Family == "interrupted-recovery" && !sc.ProcessLevel {
+		// let the upstream's reset arrive before the recovery session sends: the re-send of the first leftover then fails in
+		// the client's hand with the other leftovers still queued behind it (otherwise this depends on who wins a race)
+		vhook.Hook = func(point string) {
+			if point == "worker.session.beforeStore" {
+				time.Sleep(3 * time.Millisecond)
+			}
+		}
+	}
 	obs, err, attempts, expired := e2e.RunStable(sc, c.WorkDir(), e2e.Hooks{OnStuck: func(gen int, where string) {
 		buf := make([]byte, 1<<20)
 		n := runtime.Stack(buf, true)
@@ -70,6 +80,14 @@ func childMain(c *vkit.Ctx) {
 		return
 	}
 	fs, info := e2e.JudgeAtLeastOnce(obs)
+	if os.Getenv("VERIF_DEBUG") != "" {
+		for gi, g := range obs.Gens {
+			fmt.Fprintf(os.Stderr, "DEBUG gen%d upstream events: %v\nDEBUG gen%d agent log: %v\n", gi, g.UpEvents, gi, g.AgentLog)
+		}
+		for _, ch := range obs.Chunks {
+			fmt.Fprintf(os.Stderr, "DEBUG chunk %s gen%d conn%d %s %s acked=%v n=%d\n", ch.Output, ch.Gen, ch.UpConn, ch.Tag, ch.ChunkID, ch.Acked, ch.N)
+		}
+	}
 	for k, v := range info {
 		c.Event(k, v)
 	}
